@@ -75,7 +75,7 @@ def rand_cases(rng, n):
             na = k if r < 0.7 else (k + 1 if r < 0.85 else max(0, k - 1))
             na = min(na, 5)
             out.append((dict(op="format", fmt=b(f), args=[b(rng.choice(argv)) for _ in range(na)]),
-                        rng.choice(["mod", "args", "copy"])))
+                        rng.choice(["mod", "args", "copy"] + (["nf"] if 0 not in f else []))))
         else:
             shape = rng.choice(["s", "i", "ss", "si", "is", "ii", "sss", "sis", "isi", "ssi", "iss", "sii", "iis", "iii",
                                 "ssss", "sisi", "isis"])
@@ -155,6 +155,8 @@ def run(chk, replay, exe):
             dc.append((c, "args"))
             if len(c["args"]) >= 2:
                 dc.append((c, "copy"))
+            if all(x < 128 for x in c["fmt"]) and all(x < 128 for a in c["args"] for x in a):
+                dc.append((c, "nf"))
         else:
             dc.append((c, "mod"))
     obs = vc.run_cases(exe, [to_driver(c, via) for c, via in dc], chk.out, "replay", per_case_timeout=5)
